@@ -234,7 +234,7 @@ RelMism(e) ==
 \* mismatches of every run against the reference: set of <<run index, tag>>
 \* accessor sweep runs (all single-layer decoders, every accessor): no value prediction; the observable of
 \* C01/C02 is "no sub-slice outside the input, same digest at both guard-page placements, no panic"
-IsC02(n) == n \in {"c02.unbounded_iteration"}
+IsC02(n) == n \in {"c02.unbounded_iteration", "c02.iterator_methods_disagree"}
 \* equality of decoded values depends on the location of the input / ignores contents (sweep:packet, per slice type)
 EqTypes == {"Ethernet2Slice", "Ethernet2HeaderSlice", "LinuxSllSlice", "LinuxSllHeaderSlice", "SingleVlanSlice", "SingleVlanHeaderSlice", "MacsecSlice",
             "MacsecHeaderSlice", "ArpPacketSlice", "Ipv4Slice", "Ipv4HeaderSlice", "Ipv6Slice", "Ipv6HeaderSlice", "IpSlice", "LaxIpSlice", "IpAuthHeaderSlice",
